@@ -1,5 +1,5 @@
 """Texts for MANIFEST.json."""
-HOOK_COMMITS = []
+HOOK_COMMITS = ["4db5999", "516c80b", "6e40793"]
 
 PENDING = "check not built yet in this session (claimed by DESIGN.md; will be claimed when its theorems and correspondence family are in place)"
 NOT_APPLICABLE = {f"C{i:02d}": PENDING for i in range(1, 21)}
@@ -137,6 +137,18 @@ TEXT = {
         "design_ref": "DESIGN.md §5 C19",
         "note": "Trusted as C18; now is a parameter of the model (read by the harness within the same second).",
         "technique": "Lean 4 proof (per-mutator refinement lemma composed by induction over call sequences; decision logic) + correspondence check",
+    },
+    "C08": {
+        "level": "Lean theorems about ChainSrv, the version-chain specification every backend is compared with: accepted iff the parent is the latest "
+                 "version or none exists (C08_accept_iff); a rejection names the latest and leaves the state unchanged; the chain stays linear with "
+                 "unique ids and parents (C08_chain_invariant); the child of a parent is the accepted version, byte for byte, for ever after "
+                 "(child_bytes_exact, child_stable); unknown parents and the latest version have no child; a stored snapshot is returned intact with "
+                 "its version. Tied to the code by driving all five backend configurations through the public Server trait with random call sequences "
+                 "from 1-3 handles and comparing every answer with ChainSrv.",
+        "design_ref": "DESIGN.md §5 C08",
+        "note": "Trusted: Lean kernel + standard axioms; the hand-written spec (tied by the correspondence run on every run); harness HTTP server from docs/http.md; "
+                "in-memory object store hook; git.",
+        "technique": "Lean 4 proof (refinement target ChainSrv with its invariant) + correspondence check of five backends against it",
     },
     "C13": {
         "level": "PARTIAL. Lean theorems about an independent RFC-level implementation of the documented scheme (SHA-256, HMAC, PBKDF2, ChaCha20, "
